@@ -152,7 +152,42 @@ class _Squeeze2d1dKw(_Squeeze2d1d):
     kw = True
 
 
-HAND = {'tied1d': _Tied1d, 'tied2d': _Tied2d, 'prefix1d': _Prefix1d, 'squeeze2d1d': _Squeeze2d1d, 'squeeze2d1d-kw': _Squeeze2d1dKw}
+class _SharedPadNode(torch.nn.Module):
+    """one ConstantPad1d call feeding TWO causally padded convs whose outputs are summed (the README's explicit left padding, shared)"""
+    shape = (3, 8)
+
+    def __init__(self):
+        super().__init__()
+        nn = torch.nn
+        self.pad = nn.ConstantPad1d((4, 0), 0.)
+        self.c1 = nn.Conv1d(3, 4, 5)
+        self.c2 = nn.Conv1d(3, 4, 5)
+        self.fc = nn.Linear(4 * 8, 2)
+
+    def forward(self, x):
+        p = self.pad(x)
+        return self.fc(torch.flatten(torch.relu(self.c1(p) + self.c2(p)), 1))
+
+
+class _SharedPadModule(torch.nn.Module):
+    """one ConstantPad1d MODULE invoked at two call sites, in front of two convs in sequence"""
+    shape = (3, 8)
+
+    def __init__(self):
+        super().__init__()
+        nn = torch.nn
+        self.pad = nn.ConstantPad1d((2, 0), 0.)
+        self.c1 = nn.Conv1d(3, 4, 3)
+        self.c2 = nn.Conv1d(4, 4, 3)
+        self.fc = nn.Linear(4 * 8, 2)
+
+    def forward(self, x):
+        x = torch.relu(self.c1(self.pad(x)))
+        x = torch.relu(self.c2(self.pad(x)))
+        return self.fc(torch.flatten(x, 1))
+
+
+HAND = {'sharedpad-node': _SharedPadNode, 'sharedpad-module': _SharedPadModule, 'tied1d': _Tied1d, 'tied2d': _Tied2d, 'prefix1d': _Prefix1d, 'squeeze2d1d': _Squeeze2d1d, 'squeeze2d1d-kw': _Squeeze2d1dKw}
 
 
 def _run_hand(case, seed):
@@ -201,6 +236,14 @@ def _run_hand(case, seed):
             import itertools
             for off in itertools.combinations(free, r):
                 labels.append({'masker': name, 'pruned': list(off)})
+    # receptive field of every causally padded Conv1d (explicit ConstantPad1d + un-padded conv): every suffix, one conv at a time
+    from plinio.methods.pit.nn.conv1d import PITConv1d
+    from plinio.methods.pit.nn.timestep_masker import PITFrozenTimestepMasker
+    tms = [(name, layer) for name, layer in D.pit_layers(pit) if isinstance(layer, PITConv1d)
+           and not isinstance(layer.timestep_masker, PITFrozenTimestepMasker) and layer.padding in ('valid', 0, (0,)) and layer.kernel_size[0] > 1]
+    for name, layer in tms:
+        for keep in range(1, layer.kernel_size[0]):
+            labels.append({'rf': name, 'keep': keep})
     only = case.get('only')
     for label in labels:
         if only is not None and only != label:
@@ -211,6 +254,10 @@ def _run_hand(case, seed):
                 if label.get('masker') == name:
                     for c in label['pruned']:
                         fm.alpha[c] = 0.0
+            for name, layer in tms:
+                layer.timestep_masker.beta.fill_(1.0)
+                if label.get('rf') == name:
+                    layer.timestep_masker.beta[:-label['keep']] = 0.0
         res['states'] += 1
         res['transitions'] += len(label.get('pruned', []))
         res['evals'] += 1
